@@ -38,6 +38,7 @@ import Csvq.Lemmas.CsvRect
 import Csvq.Lemmas.Ltsv
 import Csvq.Lemmas.Fixed
 import Csvq.Lemmas.JsonTable
+import Csvq.Lemmas.EncFacts
 namespace Csvq.C02
 open Csvq.Csv
 
@@ -933,5 +934,145 @@ example :
   cases v <;> simp [AtomOK]
 
 end J
+
+/-! ## the decisions csvq itself takes, REGENERATED from /repo on every run
+
+  `extract/encfacts` (go/ast) rewrites `Csvq/Gen/EncFacts.lean` from lib/query/encode.go, file_info.go and
+  load_view.go before this file is built.  The theorems below tie the hand-written models to what the code
+  says NOW: the quoting decision of `encodeCSV` is the model's `mustQuote` (for all inputs); the line break
+  detector of the JSON loaders, translated statement by statement, returns the first line break outside
+  strings for ALL byte strings and does not depend on how the bytes are cut into reads; the options that
+  reach the go-text writers, `ConvertFieldContents`, `EncodeEndingLineBreak`, the attribute mapping of
+  `FileInfo.ExportOptions` and every store of a loader into `FileInfo` are the reviewed ones (`decide`).
+  An edit of these functions makes the extractor refuse ([gen]) or one of these theorems fail ([build]). -/
+
+namespace G
+open Csvq.Gen.Enc Csvq.EncFacts
+
+/-- **The generated quoting decision is the model's**, record fields: with the text and effect
+    `ConvertFieldContents` reports for the cell (String / Datetime effect for `str`, any other for `raw` and
+    NULL), the writer quotes exactly when the model's `mustQuote` (with `quoteLB`) says so. -/
+theorem gen_cell_quote_eq_model (o : Opts) (c : Cell) (effect : String)
+    (he : match c with
+      | .str _ => effect = "StringEffect" ∨ effect = "DatetimeEffect"
+      | _ => effect ≠ "StringEffect" ∧ effect ≠ "DatetimeEffect") :
+    mustQuote ⟨o.delim, o.lb, true⟩ (cellField o c)
+      = (cellQuote o.encloseAll effect c.text || includesDelimOrQuote o.delim c.text) := by
+  unfold cellQuote mustQuote
+  simp only [containsAny_crlf]
+  cases c with
+  | null =>
+    obtain ⟨h1, h2⟩ := he
+    simp [cellField, Cell.text, includesLineBreak, includesDelimOrQuote, h1, h2]
+  | raw s =>
+    obtain ⟨h1, h2⟩ := he
+    cases hE : o.encloseAll <;> cases hL : includesLineBreak s <;> cases hD : includesDelimOrQuote o.delim s <;>
+      simp [cellField, Cell.text, h1, h2, hE, hL, hD]
+  | str s =>
+    rcases he with h | h <;> subst h <;>
+      cases hE : o.encloseAll <;> cases hL : includesLineBreak s <;> cases hD : includesDelimOrQuote o.delim s <;>
+      simp [cellField, Cell.text, hE, hL, hD]
+
+/-- … and header fields. -/
+theorem gen_header_quote_eq_model (o : Opts) (h : List Char) :
+    mustQuote ⟨o.delim, o.lb, true⟩ (headerField o h)
+      = (headerQuote o.encloseAll h || includesDelimOrQuote o.delim h) := by
+  unfold headerQuote mustQuote
+  simp only [containsAny_crlf, headerField]
+  cases hE : o.encloseAll <;> cases hL : includesLineBreak h <;> cases hD : includesDelimOrQuote o.delim h <;>
+    simp [hE, hL, hD]
+
+/-- **The generated detector finds the first line break outside strings**, for ALL byte strings: from the
+    initial state, `LineBreak()` after `scan(b)` is `firstBreak` of `b` ("" when there is none: the session
+    default stays). -/
+theorem gen_detector_first_line_break (b : List Nat) :
+    lineBreak (scan {} b) = firstBreak false false b := by
+  have : scan {} b = scanLoop {} b := by simp [scan]
+  rw [this]
+  exact scanLoop_spec b {} ⟨rfl, rfl, fun _ => rfl⟩
+
+/-- **… however the bytes are cut into reads** (the JSON Lines loader feeds the detector chunk by chunk
+    through `Read`). -/
+theorem gen_detector_chunks (d : Det) (a b : List Nat) : scan (scan d a) b = scan d (a ++ b) :=
+  scan_append d a b
+
+theorem gen_detector_reads (chunks : List (List Nat)) :
+    lineBreak (chunks.foldl scan {}) = firstBreak false false chunks.flatten := by
+  have h : ∀ (cs : List (List Nat)) (d : Det), cs.foldl scan d = scan d cs.flatten := by
+    intro cs
+    induction cs with
+    | nil =>
+      intro d
+      simp only [List.foldl_nil, List.flatten_nil, scan, scanLoop]
+      split <;> rfl
+    | cons c cs ih =>
+      intro d
+      simp only [List.foldl_cons, List.flatten_cons]
+      rw [ih, scan_append]
+  rw [h]
+  exact gen_detector_first_line_break _
+
+/-- how the loaders use the detector: the JSON loader scans the text it has read, the JSON Lines loader
+    puts it between the file and the line reader; `Read` passes everything on and scans what it passed -/
+theorem gen_detector_uses_eq_ref :
+    detectorUses =
+  ["loadViewFromJsonFile: jsonLineBreakDetector{}", "loadViewFromJsonFile: lineBreakDetector.scan(jsonText)", "loadViewFromJsonFile: lineBreakDetector.LineBreak()", "loadViewFromJsonLinesFile: jsonLineBreakDetector{reader: fp}", "loadViewFromJsonLinesFile: jsonl.NewReader(lineBreakDetector)", "loadViewFromJsonLinesFile: lineBreakDetector.LineBreak()"] ∧
+    detectorRead =
+  ["n, err := d.reader.Read(p)", "d.scan(p[:n])", "return n, err"] :=
+  ⟨rfl, rfl⟩
+
+/-- **`FileInfo.ExportOptions`**: every attribute the file carries overrides the session's option,
+    unconditionally (C02-m8 made this depend on the format and lost TSV). -/
+theorem gen_export_options_eq_ref :
+    exportOptionsMap =
+  [("Format", "Format"), ("Delimiter", "Delimiter"), ("DelimiterPositions", "DelimiterPositions"), ("SingleLine", "SingleLine"), ("Encoding", "Encoding"), ("LineBreak", "LineBreak"), ("WithoutHeader", "NoHeader"), ("EncloseAll", "EncloseAll"), ("JsonEscape", "JsonEscape"), ("PrettyPrint", "PrettyPrint")] :=
+  rfl
+
+/-- **the loaders' stores into `FileInfo`**: the encoding is refined by `DetectInSpecifiedEncoding` for
+    EVERY named encoding (C02-m10 skipped the refinement for UTF16), the line break and the enclosure are
+    what the reader detected, JSON files are UTF-8 with the detected escape type and line break. -/
+theorem gen_loader_stores_eq_ref :
+    loaderStores =
+  [("loadViewFromCSVFile", [("Delimiter", "'\\t'", "fileInfo.Format == option.TSV"), ("Encoding", "enc := text.DetectInSpecifiedEncoding(fileHead, fileInfo.Encoding)", ""), ("LineBreak", "reader.DetectedLineBreak", "reader.DetectedLineBreak != \"\""), ("EncloseAll", "reader.EnclosedAll", "")]),
+   ("loadViewFromFixedLengthTextFile", [("Encoding", "enc := text.DetectInSpecifiedEncoding(fileHead, fileInfo.Encoding)", ""), ("LineBreak", "reader.DetectedLineBreak", "reader.DetectedLineBreak != \"\"")]),
+   ("loadViewFromLTSVFile", [("Encoding", "enc := text.DetectInSpecifiedEncoding(fileHead, fileInfo.Encoding)", ""), ("LineBreak", "reader.DetectedLineBreak", "reader.DetectedLineBreak != \"\"")]),
+   ("loadViewFromJsonFile", [("LineBreak", "lb := lineBreakDetector.LineBreak()", "lb := lineBreakDetector.LineBreak(); lb != \"\""), ("Encoding", "text.UTF8", ""), ("JsonEscape", "escapeType := json.LoadTable(fileInfo.JsonQuery, string(jsonText))", "")]),
+   ("loadViewFromJsonLinesFile", [("LineBreak", "lb := lineBreakDetector.LineBreak()", "lb := lineBreakDetector.LineBreak(); lb != \"\""), ("Encoding", "text.UTF8", ""), ("JsonEscape", "escapeType := txjson.Backslash", "")])] :=
+  rfl
+
+/-- which options reach the go-text writers -/
+theorem gen_writer_options_eq_ref :
+    csvWriter =
+  ["csv.NewWriter(fp, options.LineBreak, options.Encoding)", "w.Delimiter = options.Delimiter"] ∧
+    ltsvWriter =
+  ["ltsv.NewWriter(fp, hfields, options.LineBreak, options.Encoding)"] ∧
+    fixedWriter =
+  ["fixedlen.NewMeasure()", "m.Encoding = options.Encoding", "options.DelimiterPositions = m.GeneratePositions()", "fixedlen.NewWriter(fp, options.DelimiterPositions, options.LineBreak, options.Encoding)", "w.InsertSpace = true", "fixedlen.NewWriter(fp, options.DelimiterPositions, options.LineBreak, options.Encoding)", "w.SingleLine = options.SingleLine"] :=
+  ⟨rfl, rfl, rfl⟩
+
+/-- `ConvertFieldContents`: text, effect and alignment of every value type (String and Datetime are the
+    two effects `cellQuote` tests; NULL and UNKNOWN have no text and no effect outside text tables) -/
+theorem gen_convert_field_contents_eq_ref :
+    convertInit =
+  ["var s string", "var effect = option.NoEffect", "var align = text.NotAligned"] ∧
+    convertFieldContents =
+  [("String", "s = v.Raw(); effect = option.StringEffect"),
+   ("Integer", "s = v.String(); effect = option.NumberEffect; align = text.RightAligned"),
+   ("Float", "s = value.Float64ToStr(v.Raw(), useScientificNotation); effect = option.NumberEffect; align = text.RightAligned"),
+   ("Boolean", "s = v.String(); effect = option.BooleanEffect; align = text.Centering"),
+   ("Ternary", "if forTextTable { s = v.Ternary().String() effect = option.TernaryEffect align = text.Centering } else if v.Ternary() != ternary.UNKNOWN { s = strconv.FormatBool(v.Ternary().ParseBool()) effect = option.BooleanEffect align = text.Centering }"),
+   ("Datetime", "s = v.Format(time.RFC3339Nano); effect = option.DatetimeEffect"),
+   ("Null", "if forTextTable { s = \"NULL\" effect = option.NullEffect align = text.Centering }")] :=
+  ⟨rfl, rfl⟩
+
+/-- `EncodeEndingLineBreak`: UTF-16 outputs of the four text formats get the line break in their byte
+    order, without byte order mark; everything else the bytes themselves -/
+theorem gen_ending_line_break_eq_ref :
+    endingLineBreak =
+  [(["CSV", "TSV", "LTSV", "FIXED"], ["UTF16", "UTF16BE", "UTF16BEM"], "UTF16BE"),
+   (["CSV", "TSV", "LTSV", "FIXED"], ["UTF16LE", "UTF16LEM"], "UTF16LE")] :=
+  rfl
+
+end G
 
 end Csvq.C02
